@@ -235,3 +235,6 @@ raw("FX-D43-tail-call-option-and-builtin-last-statement", "C02", {"src": {
 raw("FX-D44-library-call-inside-main-function", "C13", {
     "A": {"": HDR + "from library import m\ndef f(a):\n    m.g(a + 1)\nwhile True:\n    f(1)\n    f(2)\n    yield_()\n", "m": HDR + "def g(a):\n    d1.Setting = a\n"},
     "B": HDR + "def m_g(a):\n    d1.Setting = a\ndef f(a):\n    m_g(a + 1)\nwhile True:\n    f(1)\n    f(2)\n    yield_()\n", "opts": {}})
+raw("FX-D45-library-without-functions-or-registers", "C13", {
+    "A": {"": HDR + "from library import cfg\ndef f(a):\n    db.Setting = a\nwhile True:\n    f(1)\n    f(2)\n    yield_()\n", "cfg": HDR + "d1.Setting = 5\nd2.On = 1\n"},
+    "B": HDR + "d1.Setting = 5\nd2.On = 1\ndef f(a):\n    db.Setting = a\nwhile True:\n    f(1)\n    f(2)\n    yield_()\n", "opts": {}})
